@@ -67,6 +67,7 @@ package note
 //@   # why opening fails, at the return statements concerned (in source order): only more than 100 signature lines are
 //@   # too many; an error of the verifier lookup other than "unknown" is passed on; a known key whose verifier rejects
 //@   # the signature over the text; no verified signature at all
+//@   ensures site 0 [C07] rejected_text_is_not_note_text: !(UTF8OK(string(msg)) && (forall k int {string(msg)[k]} :: 0 <= k && k < len(msg) ==> string(msg)[k] >= 32 || string(msg)[k] == 10))
 //@   ensures site 5 [C07] fails_for_too_many_only_above_100: numSig > 100
 //@   ensures site 6 [C07] lookup_error_passed_on: result1 == err && err != nil && typeof(err) != typeid("*UnknownVerifierError")
 //@   ensures site 8 [C07] known_key_bad_signature: err == nil && v != nil && !VERIFIES(v, string(text), string(sig)) && typeof(result1) == typeid("*InvalidSignatureError")
@@ -78,6 +79,8 @@ package note
 //@   ensures [C07] unverified_means_unknown: result1 == nil ==> (forall k int :: 0 <= k && k < len(result0.UnverifiedSigs) ==> typeof(KE(KNOWN, result0.UnverifiedSigs[k].Name, result0.UnverifiedSigs[k].Hash)) == typeid("*UnknownVerifierError"))
 //@   loop 0:
 //@     invariant 0 <= i && i <= len(msg) && known != nil
+//@     invariant UTF8OK(string(msg)) == UTF8OK(string(msg[i:]))
+//@     invariant i < len(msg) ==> string(msg)[i] == msg[i]
 //@     decreases len(msg) - i
 //@   loop 1:
 //@     invariant n != nil && known != nil && known == KNOWN && seen != nil && seenUnverified != nil && 0 <= numSig && numSig <= 100
